@@ -314,14 +314,61 @@ Proof.
   fold (xr (map (fun v => v * dim) xs) 0). fold (xr (map (fun v => v * dim) xs) (zlen xs - 1)).
   rewrite !xr_scaled by lia. reflexivity.
 Qed.
+(** Save_Function(filename, points) in exact arithmetic: every sampling point a + i (b - a) / (points - 1), 0 <= i < points, lies in
+    the domain [a, b], so the request returns for every number of points (in doubles the last point can overshoot b by an ulp:
+    known finding K-C10-2) *)
+Lemma save_function_returns_R xs n : (2 <= zlen xs < 4294967296)%Z -> increasingR xs -> guard_save_function ROps xs n = Ok tt.
+Proof.
+  intros HN Hi.
+  assert (Hin : forall x, xr xs 0 <= x <= xr xs (zlen xs - 1) -> guard_interpolate ROps xs x = Ok tt).
+  { intros x Hx. destruct (interpolate_spec ROps xs x HN) as [[E _]|[_ E]]; [|exact E]. exfalso.
+    apply (locate_exit_iff_R xs x HN Hi) in E. cbv zeta in E.
+    pose proof (Hi 1%Z ltac:(lia)) as H01. change (1 - 1)%Z with 0%Z in H01.
+    pose proof (Hi (zlen xs - 1)%Z ltac:(lia)) as HN1. replace (zlen xs - 1 - 1)%Z with (zlen xs - 2)%Z in HN1 by lia.
+    lra. }
+  pose proof (increasingR_le xs 0 (zlen xs - 1) Hi ltac:(lia) ltac:(lia) ltac:(lia)) as Hab.
+  unfold guard_save_function, interp_domain. rewrite u32_id by lia.
+  rewrite (getZ_nth _ 0 0), (getZ_nth _ (zlen xs - 1) 0) by lia. cbn [rbind fst snd].
+  fold (xr xs 0). fold (xr xs (zlen xs - 1)).
+  destruct (Z.ltb_spec n 2) as [Hn|Hn]; cbn [orb].
+  - apply Hin. lra.
+  - cbn [neqb ROps]. destruct (Reqb_spec (xr xs 0) (xr xs (zlen xs - 1))) as [E|E]; [apply Hin; lra|].
+    apply for_range_ok. intros i Hi'. apply Hin. unfold linear_space_point. cbn [nadd nsub nmul ndiv nofZ n1 ROps].
+    assert (H1 : 1 <= IZR n - 1) by (apply IZR_le in Hn; lra).
+    assert (H2 : 0 <= IZR i <= IZR n - 1).
+    { split; [apply IZR_le; lia|]. replace (IZR n - 1) with (IZR (n - 1)) by (rewrite minus_IZR; reflexivity). apply IZR_le; lia. }
+    set (a := xr xs 0) in *. set (b := xr xs (zlen xs - 1)) in *. set (t := IZR i) in *. set (m := IZR n - 1) in *.
+    assert (Hq : 0 <= t / m <= 1).
+    { split; [apply Rmult_le_pos; [lra|left; apply Rinv_0_lt_compat; lra]|].
+      apply (Rmult_le_reg_r m); [lra|]. unfold Rdiv. rewrite Rmult_assoc, Rinv_l by lra. lra. }
+    replace (a + t * ((b - a) / m)) with (a + (t / m) * (b - a)) by (field; lra).
+    split; nra.
+Qed.
 End Units.
 
 (** ** Several requests on one Interpolation object: each is judged on its own, and none reads out of bounds *)
 Section Calls.
 Context {T : Type} (Ops : NumOps T).
+Lemma for__safe fuel lo (body : Z -> res unit) : (forall i, lo <= i < lo + Z.of_nat fuel -> body i = Ok tt \/ body i = Exit) ->
+  for_ fuel lo body = Ok tt \/ for_ fuel lo body = Exit.
+Proof.
+  revert lo; induction fuel as [|f IH]; intros lo H; [left; reflexivity|].
+  cbn [for_]. destruct (H lo ltac:(lia)) as [E|E]; rewrite E; cbn [rbind]; [|right; reflexivity].
+  apply IH. intros i Hi; apply H; lia.
+Qed.
+Lemma save_function_safe xs n : 2 <= zlen xs < 4294967296 -> guard_save_function Ops xs n = Ok tt \/ guard_save_function Ops xs n = Exit.
+Proof.
+  intros HN. unfold guard_save_function, interp_domain.
+  rewrite u32_id by lia.
+  rewrite (getZ_nth _ 0 (n0 Ops)), (getZ_nth _ (zlen xs - 1) (n0 Ops)) by lia. cbn [rbind fst snd].
+  match goal with |- context [if ?b then _ else _] => destruct b end.
+  - destruct (interpolate_spec Ops xs (nth (Z.to_nat 0) xs (n0 Ops)) HN) as [[_ ->]|[_ ->]]; auto.
+  - unfold for_range. apply for__safe. intros i _.
+    match goal with |- context [guard_interpolate Ops xs ?x] => destruct (interpolate_spec Ops xs x HN) as [[_ ->]|[_ ->]]; auto end.
+Qed.
 Lemma icall_safe xs c : 2 <= zlen xs < 4294967296 -> guard_icall Ops xs c = Ok tt \/ guard_icall Ops xs c = Exit.
 Proof.
-  intros HN. destruct c as [x|x|x n|a b|a b|a b|]; cbn [guard_icall].
+  intros HN. destruct c as [x|x|x n|a b|a b|a b| |n]; cbn [guard_icall]; [| | | | | | |exact (save_function_safe xs n HN)].
   - destruct (locate_range Ops xs x HN) as [->|(j & -> & _)]; cbn; auto.
   - destruct (interpolate_spec Ops xs x HN) as [[_ ->]|[_ ->]]; auto.
   - destruct (interpolate_spec Ops xs x HN) as [[_ ->]|[_ ->]]; cbn; auto. destruct (n =? 0); auto.
@@ -341,5 +388,46 @@ Proof.
       * left. split; [|exact H2]. intros c' [<-|Hin]; auto.
       * right. split; [|exact H2]. exists c'. split; [now right|exact Hc'].
     + right. split; [|reflexivity]. exists c. split; [now left|exact E].
+Qed.
+(** the indices that the Locate requests of a sequence return: defined exactly when the sequence returns, and then every
+    one of them is an interval of the table (0 .. N-2), i.e. a valid index of the N-1 Steffen coefficients *)
+Lemma icalls_locs_spec xs cs : 2 <= zlen xs < 4294967296 ->
+  (guard_icalls Ops xs cs = Ok tt /\ exists l, icalls_locs Ops xs cs = Ok l /\ Forall (fun j => 0 <= j <= zlen xs - 2) l) \/
+  (guard_icalls Ops xs cs = Exit /\ icalls_locs Ops xs cs = Exit).
+Proof.
+  intros HN. induction cs as [|c r IH]; cbn [guard_icalls icalls_locs].
+  - left. split; [reflexivity|]. exists []. split; [reflexivity|constructor].
+  - assert (G : forall (k : res (list Z)),
+        (guard_icall Ops xs c = Ok tt -> k = icalls_locs Ops xs r) ->
+        (guard_icall Ops xs c = Exit -> k = Exit) ->
+        (guard_icalls Ops xs (c :: r) = Ok tt /\ exists l, k = Ok l /\ Forall (fun j => 0 <= j <= zlen xs - 2) l) \/
+        (guard_icalls Ops xs (c :: r) = Exit /\ k = Exit)).
+    { intros k H1 H2. cbn [guard_icalls]. destruct (icall_safe xs c HN) as [E|E]; rewrite E; cbn [rbind].
+      - rewrite (H1 E). exact IH.
+      - right. split; [reflexivity|exact (H2 E)]. }
+    destruct c as [x|x|x n|a b|a b|a b| |n].
+    + (* Locate *)
+      cbn [guard_icalls guard_icall].
+      destruct (locate_range Ops xs x HN) as [E|(j & E & Hj)]; rewrite E; cbn [rbind].
+      * right. split; reflexivity.
+      * destruct IH as [[H1 (l & H2 & H3)]|[H1 H2]].
+        -- left. split; [exact H1|]. exists (j :: l). rewrite H2. cbn [rbind]. split; [reflexivity|constructor; assumption].
+        -- right. split; [exact H1|]. rewrite H2. reflexivity.
+    + apply G; intros E; rewrite E; reflexivity.
+    + apply G; intros E; rewrite E; reflexivity.
+    + apply G; intros E; rewrite E; reflexivity.
+    + apply G; intros E; rewrite E; reflexivity.
+    + apply G; intros E; rewrite E; reflexivity.
+    + apply G; intros E; rewrite E; reflexivity.
+    + apply G; intros E; rewrite E; reflexivity.
+Qed.
+Lemma zlen_scale_units dim xs : zlen (scale_units Ops dim xs) = zlen xs.
+Proof. unfold scale_units. destruct (ngtb Ops dim (n0 Ops)); [unfold zlen; now rewrite map_length|reflexivity]. Qed.
+Lemma session_locs_spec xs dim cs : 2 <= zlen xs < 4294967296 ->
+  (guard_icalls Ops (scale_units Ops dim xs) cs = Ok tt /\ exists l, session_locs Ops xs dim cs = Ok l /\ Forall (fun j => 0 <= j <= zlen xs - 2) l) \/
+  (guard_icalls Ops (scale_units Ops dim xs) cs = Exit /\ session_locs Ops xs dim cs = Exit).
+Proof.
+  intros HN. unfold session_locs. pose proof (icalls_locs_spec (scale_units Ops dim xs) cs) as L.
+  rewrite zlen_scale_units in L. exact (L HN).
 Qed.
 End Calls.
